@@ -732,6 +732,12 @@ RunResult World::run() {
 			if (a.expr.find("tasksFailures .get(stateId)") != std::string::npos || a.expr.find("tasksSuccesses.get(stateId)") != std::string::npos) tag = "status_mark_on_inactive_state";
 			Harness* h = (curNode >= 0 && curNode < int(slots.size())) ? slots[size_t(curNode)].h.get() : nullptr;
 			if (h && a.expr.find("registry.isActive(HEAD_ID)") != std::string::npos && h->inActivation && h->shape->isOrtho(0)) tag = "activation_request_ortho_root";
+			if (h && wants("C04") && curOpKind != OP_ENTER) {
+				// bounded liveness in rounds holds or fails regardless of what the assertion says about leftovers
+				checked("C04.round_limit");
+				if (h->round + 1 > h->node->substitutionLimit()) violate("C04.round_limit", h->role + ": " + std::to_string(h->round + 1) + " guard rounds in one processing step, substitution limit is " + std::to_string(h->node->substitutionLimit()), curNode);
+				else if (h->round + 1 == h->node->substitutionLimit()) probe("round_limit_reached_with_leftovers");
+			}
 			checked("C11.assert");
 			violate("C11.assert", (h ? h->role : std::string("?")) + ": library assertion `" + a.expr + "` failed at " + a.file + ":" + std::to_string(a.line) + " during " + opName(curOpKind), curNode, tag);
 		}
